@@ -5,7 +5,8 @@
 
      stmt := "=" ty idx tree | "new" ty tree | "op=" bin ty idx opnd | "sh=" sh ty idx "n"
            | "cmp" cmpop opnd opnd | "sgn" tree
-     tree := zK | qK | un tree | bin opnd opnd | sh tree "n"          opnd := tree | "i" | "u" | "d"
+     tree := zK | qK | qnK | qdK | un tree | bin opnd opnd | sh tree "n"          opnd := tree | "i" | "u" | "d"
+     (`qnK` / `qdK`: the accessor sub-objects `Q[K].get_num()` / `Q[K].get_den()`, mpz-typed leaves)
 
    Answer: the value the target has afterwards (`hex` for mpz, `num den` for mpq, an int for
    comparisons) as given by `evalTmp`, i.e. by evaluating every sub-expression into its own temporary;
@@ -43,6 +44,8 @@ def varOf (s : String) : Option E :=
   match s.toList with
   | ['z', c] => if '0' ≤ c ∧ c ≤ '9' then some (.zv (c.toNat - '0'.toNat)) else none
   | ['q', c] => if '0' ≤ c ∧ c ≤ '9' then some (.qv (c.toNat - '0'.toNat)) else none
+  | ['q', 'n', c] => if '0' ≤ c ∧ c ≤ '9' then some (.zn (c.toNat - '0'.toNat)) else none     -- `Q[K].get_num()`
+  | ['q', 'd', c] => if '0' ≤ c ∧ c ≤ '9' then some (.zd (c.toNat - '0'.toNat)) else none     -- `Q[K].get_den()`
   | _ => none
 
 def biOf (k : String) (v : Int) : Option Bi :=
